@@ -1,6 +1,6 @@
 (* C06 — Generalized Rush-Larsen step follows the exponential-integrator formula, guarded. *)
 From Coq Require Import Reals QArith Qreals.
-From GX Require Import Base Expr Topo Ode Target Sem Codegen Load Valid Run Schemes RealsC.
+From GX Require Import Base Expr Topo Ode Target Sem Codegen Load Valid Run Schemes RealsC DiffR.
 Close Scope Q_scope.
 Close Scope R_scope.
 Open Scope string_scope.
@@ -68,3 +68,21 @@ Theorem C06_exact_for_affine_rates :
     (x + (a * x + b) / a * (exp (a * dt) - 1) = (x + b / a) * exp (a * dt) - b / a)%R.
 Proof. exact rl_exact_for_affine. Qed.
 Print Assumptions C06_exact_for_affine_rates.
+
+(* g: the helper's defining expression D x e is, over the reals, the derivative of the rate e as a
+   function of the own state x with every other name held fixed (smooth fragment, points of the
+   domain) *)
+Theorem C06_linearisation_is_the_derivative_with_respect_to_the_own_state :
+  forall (rho : string -> R) x e,
+    dom rho x e ->
+    Coquelicot.Derive.is_derive (K := Coquelicot.Hierarchy.R_AbsRing) (V := Coquelicot.Hierarchy.R_NormedModule)
+      (fun v : R => eval ROps (upd rho x v) e) (rho x) (eval ROps rho (D x e)).
+Proof. exact D_sound. Qed.
+Print Assumptions C06_linearisation_is_the_derivative_with_respect_to_the_own_state.
+
+(* with |g| <= delta (in particular g = 0) the guarded slot is the Euler update *)
+Theorem C06_guarded_slot_is_euler_when_g_is_small :
+  forall (delta : Q) (sv fv gv dtv : R),
+    (Rabs gv <= Q2R delta)%R -> slot_value ROps MGuard delta sv fv gv dtv = (sv + dtv * fv)%R.
+Proof. exact guarded_slot_euler_when_small. Qed.
+Print Assumptions C06_guarded_slot_is_euler_when_g_is_small.
